@@ -185,7 +185,7 @@ def _run(ctx, g, c, rng, craft):
     def viol(what, impl=None, model=None, extra_tags=None):
         t = dict(tags)
         t.update(extra_tags or {})
-        ctx.violation(REL, g, inp, impl if impl is not None else out, model, what, tags=t)
+        rc.report(ctx, (what[:60], t.get("path")), REL, g, inp, impl if impl is not None else out, model, what, tags=t)
 
     if out not in ("ok", "ok+all"):
         ctx.evaluated(REL, None)
